@@ -250,4 +250,50 @@ def candidateNames (path : Str) (encs : List Enc) (df : Str) : List Str :=
   let names := if df == [] then [path] else [path, df]
   names.flatMap fun n => n :: encs.map fun e => n ++ e.ext
 
+/-! ### hot reloads: a history of rule configurations loaded into one module -/
+
+structure SRule where
+  hit : Bool            -- outcome of rule.Cond.Match(request)
+  root : Str            -- Action.Params[0] (absolute path string)
+  df : Str              -- Action.Params[1]
+
+structure SConf where
+  version : Str
+  products : List (Str × List SRule)    -- product -> rules (product names distinct)
+
+/-- `StaticRuleTable.Update`: the new configuration REPLACES the table, whatever its version string -/
+def supdate (_t : List (Str × List SRule)) (c : SConf) : List (Str × List SRule) := c.products
+
+def stableAfter (cs : List SConf) : List (Str × List SRule) := cs.foldl supdate []
+
+def slookup (t : List (Str × List SRule)) (product : Str) : Option (List SRule) :=
+  (t.find? fun p => p.1 == product).map (·.2)
+
+inductive HRes
+  | goOn                 -- no rule took the request: it goes on to the backend
+  | resp (r : Resp)
+  deriving DecidableEq, Repr
+
+/-- the rule that decides under a rule list: first whose condition matches -/
+def decidingRule (rules : Option (List SRule)) : Option SRule :=
+  match rules with
+  | none => none
+  | some rs => rs.find? (·.hit)
+
+/-- staticFileHandler on a given table entry -/
+def serveWith (tree : List Entry) (sb : List Str) (rule : Option SRule) (method path : Str) (encs : List Enc) : HRes :=
+  match rule with
+  | none => HRes.goOn
+  | some r => HRes.resp (serve { tree := tree, sb := sb, root := r.root } method path encs r.df)
+
+/-- staticFileHandler after a reload history -/
+def serveH (tree : List Entry) (sb : List Str) (cs : List SConf) (product method path : Str) (encs : List Enc) : HRes :=
+  serveWith tree sb (decidingRule (slookup (stableAfter cs) product)) method path encs
+
+/-- spec side: the configuration in force is the last one loaded -/
+def sInForce (cs : List SConf) (product : Str) : Option (List SRule) :=
+  match cs.getLast? with
+  | some c => slookup c.products product
+  | none => none
+
 end BfeVerif.C50
